@@ -8,6 +8,7 @@ package main
 import (
 	"fmt"
 	"math"
+	"math/rand"
 	"strings"
 )
 
@@ -96,6 +97,9 @@ type Term struct {
 	// known to be 0, bits set in k1 are known to be 1
 	kdone  bool
 	k0, k1 uint64
+	// bit-slice normalisation (bits.go)
+	bits []bitSrc
+	norm *Term
 }
 
 func (t *Term) IsConst() bool { return t.op == OpConst }
@@ -122,6 +126,7 @@ type Store struct {
 	vars map[string]*Term
 	// order of variable creation, for models
 	varList []*Term
+	rng     *rand.Rand
 }
 
 func NewStore() *Store {
@@ -533,7 +538,12 @@ func (s *Store) bin(op Op, x, y *Term) *Term {
 			x, y = y, x
 		}
 	}
-	return s.mk(op, KBV, w, 0, 0, x, y)
+	r := s.mk(op, KBV, w, 0, 0, x, y)
+	switch op {
+	case OpAnd, OpOr, OpXor, OpShl, OpLShr:
+		return s.normBits(r)
+	}
+	return r
 }
 
 func (s *Store) Add(x, y *Term) *Term  { return s.bin(OpAdd, x, y) }
@@ -601,7 +611,7 @@ func (s *Store) Extract(x *Term, hi, lo int) *Term {
 		if k := fromKnown(r); k != nil {
 			return k
 		}
-		return r
+		return s.normBits(r)
 	}
 	return s.mk(OpExtract, KBV, w, hi, lo, x)
 }
@@ -619,7 +629,7 @@ func (s *Store) ZExt(x *Term, to int) *Term {
 	if x.op == OpZExt {
 		return s.ZExt(x.a[0], to)
 	}
-	return s.mk(OpZExt, KBV, to, to-x.w, 0, x)
+	return s.normBits(s.mk(OpZExt, KBV, to, to-x.w, 0, x))
 }
 
 func (s *Store) SExt(x *Term, to int) *Term {
@@ -640,7 +650,7 @@ func (s *Store) Concat(hi, lo *Term) *Term {
 	if hi.IsConst() && lo.IsConst() && w <= 64 {
 		return BV(hi.c<<uint(lo.w)|lo.c, w)
 	}
-	return s.mk(OpConcat, KBV, w, 0, 0, hi, lo)
+	return s.normBits(s.mk(OpConcat, KBV, w, 0, 0, hi, lo))
 }
 
 func (s *Store) cmp(op Op, x, y *Term) *Term {
